@@ -23,7 +23,8 @@ def corpus(kind="all", generated=True):
         from lib.common import seed, tier
         n = 40 if tier() == "quick" else 150
         d = os.path.join(BUILD, "gen", "gram", "s%d_%s" % (seed(), tier()))
-        files += gramgen.generate(d, seed(), {"ebnf": n, "prefix": n, "look": n, "lr": n // 2, "ebnf_lr": n // 2, "names": n, "names_lr": n // 4, "look2": 2 * n})
+        files += gramgen.generate(d, seed(), {"ebnf": n, "prefix": n, "look": n, "lr": n // 2, "ebnf_lr": n // 2, "names": n, "names_lr": n // 4, "look2": 2 * n,
+                                                 "scatter": n // 2, "scatter_lr": n // 2})
     return files
 
 
